@@ -344,6 +344,7 @@ func nitroProject(c *vh.Ctx, k int, legumes bool) *proj.Project {
 		p.GW = p.DrainDep + r.Range(0, 3)
 	}
 	steerNitroProject(p, false)
+	nitroVariant(c, r, p, k, legumes) // configuration values, irrigation N, automatic management (run_nitro_auto.go); draws after everything else
 	return p
 }
 
@@ -401,6 +402,11 @@ func c02Day(c *vh.Ctx, run *nRun, i int) {
 	got := e.SumC1 - s.SumC1
 	res := got - want
 	tol := relTol(s.SumC1, e.SumC1, dMin, dUms, dN2o, dUp, dOut, dDrain, dDen, s.Outsum, s.Drainloss, s.Aufnasum, s.Cumdenit, sum4(s.Minaos, n), sum4(s.Minfos, n))
+	// day input inside the sub-step loop: mineral part of an automatic organic fertilisation at sowing (exactly one application or none)
+	if dn := c02DirectN(c, run, d, res, tol); dn != 0 {
+		want += dn
+		res -= dn
+	}
 	clamp, drainUp, unstable := false, false, false
 	drainUpBooked := 0.0 // drain loss booked in sub-steps whose flux at the drain layer is upward
 	lastDrain := s.Drainloss
